@@ -75,7 +75,9 @@ class Container(BaseResource):
         get = BoundClass(ContainerGet)
 
     def _do_put(self, event: ContainerPut) -> bool:
-        if self._capacity - self._level >= event.amount:
+        # test what is stored: `capacity - level >= amount` and
+        # `level + amount <= capacity` can differ by a rounding error
+        if self._level + event.amount <= self._capacity:
             self._level += event.amount
             event.succeed()
             return True
